@@ -112,8 +112,9 @@ func (xp xpathImpl) resolveOperator(oper *xpath.Operator, ident string, s *Selec
 	default:
 		ca, aOk := a.(val.Comparable)
 		cb, bOk := b.(val.Comparable)
-		if !aOk || !bOk {
-			// leaf has no value, or the type has no order
+		if !aOk || !bOk || a.Format() != b.Format() {
+			// leaf has no value, the type has no order, or (union) the operands
+			// are of different types
 			return false, nil
 		}
 		c := ca.Compare(cb)
